@@ -117,4 +117,217 @@ theorem wrapChunks_flatten (W : Nat) (init subs : Str) (first : Bool) (chunks : 
     rw [this]
     exact h
 
+/-! ## `_split` -/
+
+theorem splitChunks_flatten : ∀ (t : Str), (splitChunks t).flatten = t
+  | [] => by simp [splitChunks]
+  | c :: rest => by
+    have ih := splitChunks_flatten rest
+    unfold splitChunks
+    split
+    · rename_i d ds more heq
+      rw [heq] at ih
+      split <;> simp_all
+    · rename_i more heq
+      rw [heq] at ih
+      simp_all
+    · rename_i heq
+      rw [heq] at ih
+      simp_all
+
+/-- C10_flatten — `TextWrapper.wrap` (as configured by MontePy) neither loses nor invents a character, for every
+    text and width: the lines with their indents taken off concatenate to the (tab-expanded) text. -/
+theorem C10_flatten (W : Nat) (init subs text : Str) :
+    unindent init subs true (textwrapWrap W init subs text) = munge text := by
+  unfold textwrapWrap
+  rw [wrapChunks_flatten, splitChunks_flatten]
+
+theorem textwrapWrap_width (W : Nat) (init subs text : Str) (hi : init.length < W) (hs : subs.length < W) :
+    ∀ l ∈ textwrapWrap W init subs text, l.length ≤ W :=
+  wrapChunks_width W init subs hi hs true _
+
+/-! ## `_wrap_line` -/
+
+theorem leadBlanks_le (l : Str) : leadBlanks l ≤ l.length := by
+  fun_induction leadBlanks l <;> simp <;> omega
+
+theorem mem_dropLast_append {α} (ret : List α) (x l : α) (h : l ∈ ret.dropLast ++ [x]) : l ∈ ret ∨ l = x := by
+  simp only [List.mem_append, List.mem_singleton] at h
+  rcases h with h | h
+  · exact Or.inl (List.dropLast_subset _ h)
+  · exact Or.inr h
+
+/-- every line `_wrap_line` returns fits the line length, whatever the line (no exception: an over-long word is cut). -/
+theorem wrapLine_width (line : Str) (W : Nat) (init subs : Str)
+    (hi : init.length < W) (hs : subs.length + 2 < W) (h6 : Gen.blankSpaceContinue + 1 < W) :
+    ∀ l ∈ wrapLine line W init subs, l.length ≤ W := by
+  intro l hl
+  unfold wrapLine at hl
+  simp only at hl
+  split at hl
+  · rename_i hc
+    split at hl
+    · simp only [List.mem_singleton] at hl; subst hl; assumption
+    · refine textwrapWrap_width W [] _ _ (by simp; omega) ?_ l hl
+      have hlead : leadBlanks (expandTabs Gen.tabSize line) < Gen.blankSpaceContinue := by
+        simp only [isCommentLine, Bool.and_eq_true, decide_eq_true_eq] at hc
+        exact hc.1
+      simp only [List.length_append, List.length_take, List.length_singleton]
+      omega
+  · split at hl
+    · simp only [List.mem_singleton] at hl; subst hl
+      simpa using (by assumption : init.length + (expandTabs Gen.tabSize line).length ≤ W)
+    · have hret : ∀ x ∈ (textwrapWrap W init subs (partitionDollar (expandTabs Gen.tabSize line)).1).filter stripNonEmpty,
+          x.length ≤ W := by
+        intro x hx
+        exact textwrapWrap_width W init subs _ hi (by omega) x (List.mem_filter.mp hx).1
+      have hcom : ∀ x ∈ textwrapWrap W subs (subs ++ ['$', ' ']) ('$' :: (partitionDollar (expandTabs Gen.tabSize line)).2.2),
+          x.length ≤ W :=
+        textwrapWrap_width W subs _ _ (by omega) (by simp; omega)
+      split at hl
+      · split at hl
+        · split at hl
+          · rcases mem_dropLast_append _ _ _ hl with h | h
+            · exact hret l h
+            · subst h; simp only [List.length_append]; assumption
+          · rcases List.mem_append.mp hl with h | h
+            · exact hret l h
+            · exact hcom l h
+        · rcases List.mem_append.mp hl with h | h
+          · exact hret l h
+          · exact hcom l h
+      · exact hret l hl
+
+/-! ## `wrap_string_for_mcnp` -/
+
+theorem foldl_wrap_all (P : Str → Prop) (W : Nat) (init subs : Str)
+    (hline : ∀ line, ∀ l ∈ wrapLine line W init subs, P l) :
+    ∀ (lines : List Str) (acc : List Str × Nat), (∀ l ∈ acc.1, P l) →
+      ∀ l ∈ (lines.foldl (fun (acc : List Str × Nat) line =>
+        if stripNonEmpty line then
+          let buffer := wrapLine line W init subs
+          (acc.1 ++ buffer, if buffer.length > 1 then acc.2 + 1 else acc.2)
+        else acc) acc).1, P l
+  | [], acc, h => by simpa using h
+  | line :: rest, acc, h => by
+    simp only [List.foldl_cons]
+    apply foldl_wrap_all P W init subs hline rest
+    split
+    · intro l hl
+      rcases List.mem_append.mp hl with h1 | h1
+      · exact h l h1
+      · exact hline line l h1
+    · exact h
+
+theorem length_blanks (n : Nat) : (blanks n).length = n := by simp [blanks]
+
+/-- C10_width_string — every line `wrap_string_for_mcnp` produces for line length `W` has at most `W` characters:
+    all strings, both values of `is_first_line`, every `W` that leaves two columns behind the continuation indent. -/
+theorem C10_width_string (s : Str) (W : Nat) (isFirst : Bool) (hW : Gen.blankSpaceContinue + 2 < W) :
+    ∀ l ∈ (wrapStringWith s W isFirst).1, l.length ≤ W := by
+  unfold wrapStringWith
+  apply foldl_wrap_all (fun l => l.length ≤ W)
+  · intro line
+    apply wrapLine_width
+    · split
+      · simp; omega
+      · rw [length_blanks]; omega
+    · rw [length_blanks]; omega
+    · omega
+  · simp
+
+theorem lookup_mem {α β} [BEq α] : ∀ (l : List (α × β)) (a : α) (b : β), l.lookup a = some b → ∃ a', (a', b) ∈ l
+  | [], _, _, h => by simp [List.lookup] at h
+  | (k, v) :: rest, a, b, h => by
+    simp only [List.lookup] at h
+    split at h
+    · cases h; exact ⟨k, List.mem_cons_self⟩
+    · obtain ⟨a', h'⟩ := lookup_mem rest a b h
+      exact ⟨a', List.mem_cons_of_mem _ h'⟩
+
+theorem getMaxLineLength_mem (v : Version) (n : Nat) (h : getMaxLineLength v = .ok n) :
+    ∃ e ∈ Gen.lineLength, e.2 = n := by
+  unfold getMaxLineLength at h
+  split at h
+  · split at h
+    · rename_i m hm
+      cases h
+      obtain ⟨a, ha⟩ := lookup_mem _ _ _ hm
+      exact ⟨_, ha, rfl⟩
+    · cases h
+  · split at h
+    · rename_i m hm
+      cases h
+      obtain ⟨a, ha⟩ := lookup_mem _ _ _ hm
+      exact ⟨_, ha, rfl⟩
+    · cases h
+
+/-- C10_width — for every version of the code's `LINE_LENGTH` table (consumed from the generated file), every
+    string and either `is_first_line`: whenever `wrap_string_for_mcnp` returns, each line fits that version's limit. -/
+theorem C10_width (v : Version) (s : Str) (isFirst : Bool) (r : List Str × Nat) (n : Nat)
+    (hn : getMaxLineLength v = .ok n) (h : wrapStringForMcnp s v isFirst = .ok r) :
+    ∀ l ∈ r.1, l.length ≤ n := by
+  obtain ⟨e, he, hen⟩ := getMaxLineLength_mem v n hn
+  have hW : Gen.blankSpaceContinue + 2 < n := hen ▸ C10_tables.1 e he
+  unfold wrapStringForMcnp at h
+  rw [hn] at h
+  simp only at h
+  split at h
+  · cases h
+  · cases h
+    exact C10_width_string s n isFirst hW
+
+/-- non-vacuity: all three listed versions and every later one have a line length -/
+example : getMaxLineLength (6, 1, 0) = .ok 80 ∧ getMaxLineLength (5, 1, 60) = .ok 80 ∧
+    getMaxLineLength (6, 2, 0) = .ok 128 ∧ getMaxLineLength (7, 0, 0) = .ok 128 ∧
+    getMaxLineLength (5, 1, 0) = .error .unsupportedFeature := by
+  refine ⟨?_, ?_, ?_, ?_, ?_⟩ <;> rfl
+
+/-- C10_title_message_width — title and message lines are cut to at most limit-1 columns. -/
+theorem sliceTo_length (s : Str) (k : Int) (n : Nat) (h0 : 0 ≤ k) (h : k ≤ n) : (sliceTo s k).length ≤ n := by
+  unfold sliceTo
+  split
+  · simp only [List.length_take]; omega
+  · omega
+
+theorem C10_title_message_width (v : Version) (n : Nat) (hn : getMaxLineLength v = .ok n) :
+    (∀ title ls, titleFormat title v = .ok ls → ∀ l ∈ ls, l.length ≤ n) ∧
+    (∀ msg ls, messageFormat msg v = .ok ls → ∀ l ∈ ls, l.length ≤ n) := by
+  obtain ⟨e, he, hen⟩ := getMaxLineLength_mem v n hn
+  have hW : Gen.blankSpaceContinue + 2 < n := hen ▸ C10_tables.1 e he
+  have h10 : 10 ≤ n := by
+    have := C10_tables.1 e he
+    revert he this
+    subst hen
+    intro he
+    have : ∀ e ∈ Gen.lineLength, 10 ≤ e.2 := by decide
+    exact fun _ => this e he
+  constructor
+  · intro title ls h l hl
+    unfold titleFormat at h
+    rw [hn] at h
+    cases h
+    simp only [List.mem_singleton] at hl
+    subst hl
+    exact sliceTo_length _ _ _ (by omega) (by omega)
+  · intro msg ls h l hl
+    unfold messageFormat at h
+    rw [hn] at h
+    cases h
+    simp only [List.mem_append, List.mem_singleton] at hl
+    rcases hl with hl | hl
+    · cases msg with
+      | nil => simp at hl
+      | cons m rest =>
+        simp only [List.mem_cons, List.mem_map] at hl
+        rcases hl with hl | ⟨x, _, hx⟩
+        · subst hl
+          have := sliceTo_length m ((n : Int) - 10) (n - 10) (by omega) (by omega)
+          simp only [List.length_append]
+          have h9 : "MESSAGE: ".toList.length = 9 := by decide
+          omega
+        · subst hx
+          exact sliceTo_length _ _ _ (by omega) (by omega)
+    · subst hl; simp
+
 end MontePyVerif.C10
